@@ -244,6 +244,8 @@ def build_operator(name, od, style=None):
     variables = {}
     for vname, kind, val in od["vars"]:
         variables[vname] = var_decl(kind, val, od.get("out") == vname)
+    if any(E.uses_time(ast) for _, _, ast, *_ in od["eqs"]):
+        variables["t"] = "variable(0.0)"
     return OperatorTemplate(name=name, equations=eqs, variables=variables, path=None)
 
 
